@@ -13,7 +13,8 @@ CHECKS = ['C%02d' % i for i in range(1, 21)]
 def prep(seed_dir):
     d = tempfile.mkdtemp(prefix='py4hw-x-')
     shutil.copytree('/repo/py4hw', os.path.join(d, 'py4hw'), ignore=shutil.ignore_patterns('__pycache__'))
-    r = subprocess.run(['git', 'apply', '--whitespace=nowarn', '--directory', '.', os.path.abspath(os.path.join(seed_dir, 'patch.diff'))], cwd=d,
+    # only the library part of a patch is applied (a seeded commit may also add unit tests)
+    r = subprocess.run(['git', 'apply', '--whitespace=nowarn', '--include=py4hw/*', os.path.abspath(os.path.join(seed_dir, 'patch.diff'))], cwd=d,
                        stdout=subprocess.PIPE, stderr=subprocess.STDOUT)
     if r.returncode:
         r = subprocess.run(['patch', '-p1', '-s', '--binary', '-i', os.path.abspath(os.path.join(seed_dir, 'patch.diff'))], cwd=d, stdout=subprocess.PIPE, stderr=subprocess.STDOUT)
